@@ -3,7 +3,7 @@
 One check = build (A) -> axiom audit (B) -> correspondence model/implementation (C) -> property oracle on the
 implementation (D) -> verdict, evidence, replay files.
 """
-import collections, hashlib, json, multiprocessing, os, random, re, subprocess, sys, time, traceback
+import itertools, collections, hashlib, json, multiprocessing, os, random, re, subprocess, sys, time, traceback
 
 VERIF = os.path.dirname(os.path.dirname(os.path.abspath(__file__)))
 LEAN = os.path.join(VERIF, "lean")
@@ -284,13 +284,20 @@ def run_check(prop, mod, tier, seed):
                 if finishes:
                     failing.append((i, "%s (model: %s)" % (mod.HANG_IS_VIOLATION, (m or {}).get("outcome") if isinstance(m, dict) else "n/a")))
 
+    # ---- structural part of the correspondence (where a property module states one)
+    structure_problems = list(mod.structure()) if hasattr(mod, "structure") else []
+
     def shrink(case, pred):
         if not hasattr(mod, "shrink"):
             return case
         cur = case; improved = True; budget = 400
         while improved and budget > 0:
             improved = False
-            for cand in mod.shrink(cur):
+            try:
+                cands = list(itertools.islice(mod.shrink(cur), 2000))
+            except BaseException:
+                cands = []          # no shrinker for this kind of case
+            for cand in cands:
                 budget -= 1
                 if budget <= 0: break
                 try:
@@ -319,7 +326,7 @@ def run_check(prop, mod, tier, seed):
                                                  "model_observation": model_obs[i], "seed": seed,
                                                  "other_failing_cases": len(failing) - 1})
         lines.append("VIOLATION property=%s replay=%s" % (prop, path)); violations += len(failing)
-    elif disagreements or adapter_errors or model_error or not proof_ok:
+    elif disagreements or adapter_errors or model_error or not proof_ok or structure_problems:
         # the property is no longer shown to hold; no concrete failing input among everything explored (the oracle ran
         # on all cases above, including the disagreeing ones) -> search the neighbourhood of the disagreeing cases
         found = None
@@ -332,6 +339,11 @@ def run_check(prop, mod, tier, seed):
                 if v is not None and not (hasattr(mod, "classify") and mod.classify(cand, o, v, None) is not None):
                     found = (cand, o, v); break
             if found: break
+        if not found and structure_problems and hasattr(mod, "structure_search"):
+            try:
+                found = mod.structure_search(structure_problems, rnd)
+            except BaseException:
+                found = None
         if found:
             cand, o, v = found
             path = write_replay(prop, "violation", {"property": prop, "kind": "property violated on the implementation (found near a model/implementation disagreement)",
@@ -343,6 +355,8 @@ def run_check(prop, mod, tier, seed):
                 what["theorems_not_checked"] = theorems; what["build_log_tail"] = build_log[-3000:]
             if audit_problems:
                 what["audit_problems"] = audit_problems
+            if structure_problems:
+                what["correspondence_structure"] = structure_problems
             if model_error:
                 what["correspondence"] = "model driver failed: " + model_error
             if adapter_errors:
@@ -421,6 +435,7 @@ def run_check(prop, mod, tier, seed):
             "disagreements_checked": len(disagreements),
             "outcomes": dict(outcomes),
             "corpus_cases": len(corpus),
+            "structure_check": ({"checked": True, "problems": structure_problems} if hasattr(mod, "structure") else None),
             "known_findings_seen": dict(known_hits),
             "explanation": mod.THEOREM_NOTE,
         },
